@@ -735,7 +735,15 @@ def rolling_dims(V, **params):
     return c02.rolling_dims(V, **params)
 
 
-FUNCS = {"stripe_input": stripe_input, "restripe_buffers": restripe_buffers, "apply_twice": apply_twice, "cascadable": cascadable, "rolling_dims": rolling_dims, "tconv_pads": tconv_pads, "stripe_proposals": stripe_proposals, "rows": rows, "cols": cols, "rows_upscaled": rows_upscaled, "area": area, "cascade": cascade}
+def kernel_conversion(V, **params):
+    """the kernel geometry programmed for a stripe is the kernel the stripe's region and padding were computed for: harness/c04.py
+    kernel_conversion (real to_npu_kernel / to_kernel keep every field in place)"""
+    from harness import c04
+
+    return c04.kernel_conversion(V, **params)
+
+
+FUNCS = {"kernel_conversion": kernel_conversion, "stripe_input": stripe_input, "restripe_buffers": restripe_buffers, "apply_twice": apply_twice, "cascadable": cascadable, "rolling_dims": rolling_dims, "tconv_pads": tconv_pads, "stripe_proposals": stripe_proposals, "rows": rows, "cols": cols, "rows_upscaled": rows_upscaled, "area": area, "cascade": cascade}
 
 
 
@@ -759,6 +767,7 @@ def instances(tier, seed):
                 out.append(dict(key="rows/%s/s%d/%s/split" % (mode, stride, "striped" if striped else "full"), fn="rows",
                                 params=dict(stride=stride, mode=mode, striped=striped, hmax=hmax, kmax=kmax, split=1)))
     out.append(dict(key="rolling_dims", fn="rolling_dims", params={}))
+    out.append(dict(key="kernel_conversion", fn="kernel_conversion", params={}))
     out.append(dict(key="cascadable", fn="cascadable", params={}))
     out.append(dict(key="stripe_input", fn="stripe_input", params={}))
     for nb in (1, 2):
